@@ -503,6 +503,7 @@ func (in *Interp) RunConfig(cfg *Config, maxPaths int64, deadline time.Time) *Re
 			args := make([]Value, len(rs.argVals))
 			copy(args, rs.argVals)
 			in.syncDepth = 0
+			in.syncMaps = nil
 			rs.syncWrites = 0
 			in.callFunction(fn, args, nil)
 			end = pathEnd{kind: endDone}
